@@ -37,6 +37,15 @@ def gen(rng, tier):
                 srow[good] = F(rng.randint(8, 16), 2); srow[1 - good] = -F(rng.randint(8, 16), 2); srow[2] = F(rng.randint(2, 4), 2)
         bs = gen_beliefs(rng, S, 6)
         out.append("solve ls %s %d %s %d %s" % (rng.choice(["dense", "dense", "sparse", "generic"]), rng.choice([1, 2, 2]), fmt_pomdp(m), len(bs), " ".join(Qs(b) for b in bs)))
+    # one solver object, two problems in a row (different sizes and horizons): nothing may carry over
+    for k in range({"quick": 30, "thorough": 120, "search": 60}[tier]):
+        alg = rng.choice(["ip", "wit", "wit", "ls"])
+        SA = rng.choice([2, 3]); S = rng.choice([2, 3])
+        ma = gen_pomdp(rng, SA, rng.choice([2, 3]), rng.choice([1, 2, 3]), gammas=(F(1, 2), F(3, 4)))
+        m = gen_pomdp(rng, S, rng.choice([1, 2, 3]), rng.choice([1, 2, 3]), gammas=(F(1, 2), F(3, 4), F(1)))
+        bs = gen_beliefs(rng, S, 5)
+        out.append("resolve %s %s %d %s %d %s %d %s" % (alg, rng.choice(["dense", "sparse", "generic"]), rng.randint(1, 3), fmt_pomdp(ma),
+                   rng.randint(1, 3), fmt_pomdp(m), len(bs), " ".join(Qs(b) for b in bs)))
     for k in range(n):
         S = rng.choice([2, 2, 3, 3]); A = rng.choice([1, 2, 2, 3]); O = rng.choice([1, 2, 2, 3, 4])
         m = gen_pomdp(rng, S, A, O, gammas=(F(1, 2), F(3, 4), F(3, 4), F(1)))
